@@ -107,6 +107,17 @@ def make_pool(seed, n):
     out.append('project f2 "F" 2025-03-03 +2w {\n  timezone "Etc/UTC"\n  timingresolution 30min\n}\nresource r "r" {\n  leaves annual 2025-03-03 - 2026-03-03\n}\nresource q "q" {}\n'
                'task g "g" {\n  limits { dailymax 2h }\n  task never "n" {\n    effort 4h\n    allocate r\n  }\n  task slow "s" {\n    effort 300h\n    allocate q\n  }\n}\n'
                'task late "l" {\n  effort 2h\n  allocate q\n  start 2025-09-01\n}\n')
+    # ties between several candidates (seeded change C12-c: alternatives iterated as a set of id strings): the primary is
+    # away, several idle alternatives with identical calendars tie; whatever breaks the tie must not be the hash seed
+    for k, names in enumerate((["zeta", "alpha", "kappa", "beta", "omega", "delta"], ["r9", "r10", "r2", "r33", "r4", "r51"])):
+        a = names
+        out.append(('project h%d "H" 2025-03-03 +4w {\n  timezone "Etc/UTC"\n}\nresource main "m" {\n  leaves annual 2025-03-03 - 2025-03-21\n}\n' % k)
+                   + "".join('resource %s "%s" {}\n' % (x, x) for x in a)
+                   + 'task w1 "w1" {\n  effort 3d\n  allocate main { alternative %s }\n}\n' % ", ".join(a)
+                   + 'task w2 "w2" {\n  effort 2d\n  allocate main { alternative %s }\n  priority 400\n}\n' % ", ".join(reversed(a))
+                   + 'task w3 "w3" {\n  effort 2d\n  allocate main { alternative %s }\n  priority 300\n}\n' % ", ".join(a[2:] + a[:2])
+                   + "".join('task u%d "u%d" {\n  effort 1d\n  allocate %s\n  priority 200\n}\n' % (j, j, x) for j, x in enumerate(a[:4]))
+                   + 'task w4 "w4" {\n  effort 1d\n  allocate main { alternative %s }\n  priority 100\n  depends w1\n}\n' % ", ".join(a[1:5]))
     fx = sorted(glob.glob(os.path.join(common.REPO, "tests", "data", "*.tjp")))
     for f in fx[: max(2, n // 8)]:
         try:
